@@ -402,8 +402,13 @@ def trcl_deck(rnd):
     bud = gen.Budget(rnd, 3)
     r = bud.num('r', pre, positive=True, choices=[1, Fr(3, 2)])
     a = bud.num('a', pre, choices=[0, Fr(1, 2)])
-    kind = rnd.choice(['so', 'rpp', 'kz', 'cz', 'tz'])
-    if kind == 'so':
+    kind = rnd.choice(['so', 'rpp', 'kz', 'cz', 'tz', 'two'])
+    if kind == 'two':
+        # two surfaces, listed on the cell card in the order 2, 1: the ids handed out to the moved surfaces
+        # and the implicit numbers 1001, 1002 must not get mixed up
+        d.surfs = [dk.Surf(1, 's', [Fr(1), Fr(0), Fr(0), r]), dk.Surf(2, 'px', [a])]
+        e1 = ('and', ('s', 2), ('s', -1))
+    elif kind == 'so':
         d.surfs = [dk.Surf(1, 's', [Fr(1), Fr(0), Fr(0), r])]
         e1 = ('s', -1)
     elif kind == 'rpp':
@@ -439,8 +444,13 @@ def trcl_deck(rnd):
     d.cells.append(c1)
     # a second cell bounded by the IMPLICIT transformed surface 1000*cell+surf of cell 1
     big = len(d.surfs) + 1
+    if rnd.random() < 0.4:
+        big = rnd.choice([998, 999, 1000])       # the largest explicit number lies just below the implicit ones
     d.surfs.append(dk.Surf(big, 'so', [Fr(20)]))
-    if rnd.random() < 0.6:
+    if kind == 'two':
+        which = rnd.choice([1001, -1001, 1002])
+        d.cells.append(dk.Cell(2, ('and', ('s', which), ('s', -big), ('cell', 1)), imp=1))
+    elif rnd.random() < 0.6:
         # the moved surface (elementary or macrobody) referenced from another cell by its implicit number
         if kind in ('so', 'tz', 'rpp') and rnd.random() < 0.5:
             # negative sense of the implicit surface: the moved body itself, seen from another cell
